@@ -15,7 +15,7 @@ def gen_case(rng, cfg):
     g = Gen(rng, catch_all_p=cfg.get("catch_all_p", 0.12), raise_p=cfg.get("raise_p", 0.06),
             none_p=cfg.get("none_p", 0.04), fail_cell_p=cfg.get("fail_cell_p", 0.0),
             handled_seq_p=cfg.get("handled_seq_p", 0.0), lam_p=cfg.get("lam_p", 0.0),
-            space_p=cfg.get("space_p", 0.0))
+            space_p=cfg.get("space_p", 0.0), block_p=cfg.get("block_p", 0.0))
     if cfg.get("no_try_p") and rng.random() < cfg["no_try_p"]:
         g.no_try = True
     ncells = rng.randint(cfg.get("min_cells", 2), cfg.get("max_cells", 6))
@@ -56,6 +56,12 @@ def gen_case(rng, cfg):
             ops.append(["setformula", str(c["id"]), sexp(g.body(c["id"], c["nparams"], [x["nparams"] for x in cells]))])
         elif k == "setcached":
             ops.append(["setcached", str(c["id"]), str(rng.randrange(2))])
+        elif k == "admin":
+            # administrative calls, in bursts (a stack-trace session is two of them)
+            for _ in range(rng.choice([1, 1, 2, 3])):
+                ops.append(["admin", rng.choice(execworld.ADMIN + ["start", "stop", "tracestack"])])
+        elif k == "maxdepth":
+            ops.append(["maxdepth", str(rng.choice(cfg.get("limits", [3, 4, 5, 6, 8, 10, 14, 100000])))])
     return {"cells": cells, "refs": refs, "n_rn": g.n_rn, "maxdepth": maxdepth, "ops": ops}
 
 
